@@ -63,7 +63,7 @@ def main(argv=None) -> int:
         seed = 0
     rep = Report(pid, args.tier, seed)
     rep.dry = args.dry
-    _limits(600 if args.tier == "thorough" else 240)
+    _limits(1500 if args.tier == "thorough" else 240)
     try:
         try:
             mod = importlib.import_module(f"pst.rules.{pid.lower()}")
